@@ -279,3 +279,45 @@ pub fn cut_bytes(sim: &Sim, data: &[u8], interesting: &[usize]) -> Vec<Bytes> {
     }
     out
 }
+
+/// Plain message source for client-streaming requests (`Stream<Item = T>`), with drawn readiness.
+pub struct MsgSource<T> {
+    sim: Sim,
+    items: VecDeque<T>,
+    pending_pct: u64,
+    done: bool,
+    polls_after_done: u32,
+}
+
+impl<T> MsgSource<T> {
+    pub fn new(sim: &Sim, items: Vec<T>, pending_pct: u64) -> Self {
+        MsgSource { sim: sim.clone(), items: items.into(), pending_pct, done: false, polls_after_done: 0 }
+    }
+}
+
+impl<T: Unpin> Stream for MsgSource<T> {
+    type Item = T;
+    fn poll_next(mut self: Pin<&mut Self>, cx: &mut Context<'_>) -> Poll<Option<T>> {
+        let this = &mut *self;
+        this.sim.step();
+        if this.done {
+            this.polls_after_done += 1;
+            if this.polls_after_done > AFTER_END_POLL_CAP {
+                std::panic::panic_any(SimAbort { class: "busy-loop-on-finished-source".into(), detail: format!("request message source polled {} times after it had ended", this.polls_after_done) });
+            }
+            return Poll::Ready(None);
+        }
+        if this.pending_pct > 0 && this.sim.chance(this.pending_pct, 100) {
+            this.sim.fault("source-pending");
+            cx.waker().wake_by_ref();
+            return Poll::Pending;
+        }
+        match this.items.pop_front() {
+            None => {
+                this.done = true;
+                Poll::Ready(None)
+            }
+            Some(m) => Poll::Ready(Some(m)),
+        }
+    }
+}
